@@ -1,9 +1,9 @@
 from engine.core import Job
 META = dict(
     level="other",
-    claim="Conditional-inclusion skipping and include search order on the real preprocess.c: skip_line returns the next line start (extra tokens ignored); real preprocess2 (with the real skip_cond_incl/skip_cond_incl2/skip_line/push_cond_incl) passes through exactly the groups C11 6.10.1 selects on four concrete directive skeletons (ifndef/else, nested ifdef/ifndef, doubly nested inside a skipped group, if/elif/else) for all symbolic 64-bit controlling values; push_cond_incl records a group as taken iff the full 64-bit value is non-zero; search_include_paths returns the first existing candidate in directory order and positions #include_next after it, search_include_next continues from there, for every existence pattern over 4 directories.",
-    note="Bounded (4 tokens / 4 directories); group skipping (skip_cond_incl) is not covered (tool limit). Assumed: format() yields the i-th candidate path, file_exists is a pure predicate of an unchanging file system, the include memo table is empty (first lookup). Not covered: taken-branch bookkeeping in preprocess2, #if expression evaluation (see C07), include guard detection, -idirafter ordering in main.c.",
-    functions=["preprocess.c:preprocess2", "preprocess.c:push_cond_incl", "preprocess.c:skip_cond_incl", "preprocess.c:skip_cond_incl2", "preprocess.c:skip_line", "preprocess.c:is_hash", "preprocess.c:search_include_paths", "preprocess.c:search_include_next"],
+    claim="Conditional-inclusion skipping and include search order on the real preprocess.c: skip_line returns the next line start (extra tokens ignored); real preprocess2 (with the real skip_cond_incl/skip_cond_incl2/skip_line/push_cond_incl) passes through exactly the groups C11 6.10.1 selects on four concrete directive skeletons (ifndef/else, nested ifdef/ifndef, doubly nested inside a skipped group, if/elif/else) for all symbolic 64-bit controlling values; push_cond_incl records a group as taken iff the full 64-bit value is non-zero; search_include_paths returns the first existing candidate in directory order and positions #include_next after it, search_include_next continues from there, for every existence pattern over 4 directories; the #include arm of preprocess2 (real read_include_filename/join_tokens/copy_line) tries the includer's directory first for the quote form and never for the angle form, whichever way the form was produced (literal or macro), for every existence pattern, and an operand that is no file name form is diagnosed; detect_include_guard reports a guard only for files that are one #ifndef group without #else/#elif whose #endif ends the file, on every sequence of up to 4 (thorough: 5) text/directive lines after three prologues; parse_args + add_default_include_paths build the search list as -I, default/system, -idirafter directories for every mix of three options.",
+    note="Bounded (4 tokens / 4 directories / four directive skeletons); skip_cond_incl on SYMBOLIC token lists is not covered (tool limit) - it runs inside the concrete skeletons only. Assumed: format() yields the i-th candidate path, file_exists is a pure predicate of an unchanging file system, the include memo table is empty (first lookup). Not covered: #if expression post-processing (defined, identifiers to 0; value folding is C07), include_file's use of the guard/pragma-once tables, include guard detection, -idirafter ordering in main.c.",
+    functions=["preprocess.c:read_include_filename", "preprocess.c:join_tokens", "preprocess.c:copy_line", "preprocess.c:detect_include_guard", "main.c:parse_args", "main.c:add_default_include_paths", "preprocess.c:preprocess2", "preprocess.c:push_cond_incl", "preprocess.c:skip_cond_incl", "preprocess.c:skip_cond_incl2", "preprocess.c:skip_line", "preprocess.c:is_hash", "preprocess.c:search_include_paths", "preprocess.c:search_include_next"],
     trusted_base=["CBMC 6.11"],
     assumptions=["ghost format()/file_exists()", "empty include cache", "eval_const_expr/find_macro/expand_macro are stand-in stubs (calls redirected): they yield the symbolic value of each directive and consume its line", "equal(tok, s) holds iff the token's spelling is s (ghost stub of tokenize.c equal)"],
     explanation="bounded symbolic harnesses on real preprocess.c functions against spec scanners",
@@ -33,5 +33,18 @@ def jobs(tier):
             bounded="concrete directive skeleton, symbolic controlling values", sample="#if A / #elif B / #else / #endif with 64-bit values", **P),
         Job(name="push_cond_incl", src="cond.c", group="C10.3 taken-branch bookkeeping", defs={"SCEN": "9"}, mode="plain", cut=CUT, havoc=["warn_tok"], unwind=8, timeout=300, replay=None,
             bounded="single call", sample="push_cond_incl with every 64-bit controlling value"),
+        *[Job(name=f"include-form{f}", src="incl.c", group="C10.5 include search order", defs={"FORM": str(f)}, unwind=12, cbmc_flags=["--paths lifo"],
+              redirect={"include_file": "stub_include_file", "expand_macro": "stub_expand_macro"},
+              bounded="one directive per form, 2 search directories, symbolic file system", sample=["#include \"x.h\"", "#include <x.h>", "#include M with M -> <x.h>", "#include M with M -> \"x.h\""][f] + " with every existence pattern", **P) for f in range(4)],
+        Job(name="include-not-a-name", src="incl.c", group="C10.5 include search order", defs={"FORM": "4"}, unwind=12, cbmc_flags=["--paths lifo"],
+            redirect={"include_file": "stub_include_file", "expand_macro": "stub_expand_macro"}, bounded="one directive", sample="#include foo (not a macro)", **dict(P, cut=["error", "error_at", "verror_at"])),
+        *[Job(name=f"include-guard-pro{g}" + (f"-k{k0}" if k0 is not None else ""), src="guard.c", group="C10.6 re-inclusion shortcuts",
+              defs=dict({"PRO": str(g), "NL": "4" if g == 0 else "3"}, **({"K0": str(k0)} if k0 is not None else {})), unwind=24, cbmc_flags=["--paths lifo"],
+              bounded="files of a guard prologue + at most 4 (3) directive/text lines", sample="detect_include_guard on every sequence of up to 4 (3) lines from {text,#if,#ifdef,#else,#elif,#endif} after " + ["#ifndef X/#define X", "#ifndef X/#define Y", "text/#ifndef X/#define X"][g], **P)
+          for g in range(3) for k0 in (range(6) if g == 0 else [None])],
+        *([Job(name=f"include-guard5-k{k0}{k1}", src="guard.c", group="C10.6 re-inclusion shortcuts", defs={"PRO": "0", "NL": "5", "K0": str(k0), "K1": str(k1)}, unwind=24, cbmc_flags=["--paths lifo"], tier="thorough",
+               bounded="files of a guard prologue + 5 directive/text lines", sample="detect_include_guard, 5 lines", **dict(P, timeout=900)) for k0 in range(6) for k1 in range(6)] if tier == "thorough" else []),
+        Job(name="cmdline-search-order", src="cmdline.c", group="C10.7 command-line ordering", defs={"NS": "3"}, units=["strings.c"], unwind=40, cbmc_flags=["--paths lifo"],
+            bounded="3 option slots (-I<dir> | -idirafter <dir> | none)", sample="parse_args + add_default_include_paths on every mix of -I and -idirafter options", **P),
         Job(name="search_include", src="search.c", group="C10.5 include search order", unwind=8, bounded="4 include directories", sample="search_include_paths/next over every existence pattern of 4 directories", **P),
     ]
